@@ -82,7 +82,18 @@ def main():
             if (phase == "before" and rc != 0) or (phase == "after" and rc == 0):
                 print(out[-3000:])
     if phase == "before":
+        # RUN.txt without an explicit apply step: the same cargo commands are meant for both states
         rc, out = sh(f"git apply {patch}")
+        if rc != 0:
+            print("PATCH DOES NOT APPLY", out)
+            return 2
+        for c in [c for c in cmds if c.startswith("cargo")]:
+            rc, out = sh(c)
+            log.append((c + "   # with the change", rc))
+            demo_after = rc if demo_after in (None, 0) else demo_after
+            print(f"[demo after] rc={rc}: {c}")
+            if rc == 0:
+                print(out[-2000:])
     # 2. touched crates
     files = re.findall(r"^\+\+\+ b/(\S+)", open(patch).read(), re.M)
     crates = sorted({"/".join(f.split("/")[:2]) for f in files if f.startswith("crates/")} | {f.split("/")[0] for f in files if f.startswith("bin/")})
